@@ -87,7 +87,7 @@ package certstore
 // create: initial power table first, then the first-instance marker (C10); reopen derives the latest table from
 // the datastore, never from a value cached by the caller (C09).
 //@ func CreateStore
-//@   property C09, C10
+//@   property C09, C10, C15
 //@   modifies auto
 //@   maypanic
 //@   at putPowerTable 1
@@ -96,7 +96,7 @@ package certstore
 //@     before[marker_written_after_the_initial_table] dominatedBy(putPowerTable, 1) && res(putPowerTable, 1) == nil && arg(2) == certStoreFirstKey && arg(3) == firstInstance
 
 //@ func OpenOrCreateStore
-//@   property C09, C10
+//@   property C09, C10, C15
 //@   modifies auto
 //@   maypanic
 //@   ensures result1 == nil ==> result0 != nil && result0.powerTableFrequency == 1440
@@ -109,7 +109,7 @@ package certstore
 //@     before[an_existing_store_is_reopened_only_with_its_own_first_instance] res(readInstanceNumber, 1, 1) == nil ==> res(readInstanceNumber, 1, 0) == firstInstance
 
 //@ func OpenStore
-//@   property C09, C10
+//@   property C09, C10, C15
 //@   modifies auto
 //@   maypanic
 //@   at GetPowerTable 1
